@@ -29,6 +29,9 @@ fn c19_all() {
         ("oneway_interface", "package x; oneway interface I { void f(); oneway void g(); }"),
         ("unnamed_args", "package x; interface I { void f(int, in IBinder, in ParcelFileDescriptor p); }"),
         ("fwd", "package x; parcelable Q; interface I { void f(in Q q, in android.os.ParcelFileDescriptor d); }"),
+        ("empty_docs", "package x; /** */ interface I { /***/ void f(/** */ int a); /**\n *\n */ const int K = 1; /** d */ void g(); }"),
+        ("values_and_annotations", "package x; @A(a=1, b=\"s\", c) parcelable W { @B int a = 3; String s = \"x\"; int[] v = {1, 2}; List l; }"),
+        ("codes", "package x; interface I { void a() = 0; void b() = 4294967295; oneway void c(in Map<String,String> m) = 7; }"),
     ];
     let mut ok = true;
     for (n, s) in cases.iter() {
